@@ -193,10 +193,22 @@ func genLayer(t *tape.Tape, o LayerOpts) Layer {
 			add(b, refcbor.Uint(refcose.LTyp), genContentType(t))
 		case 4:
 			// CWT claims (protected only by convention; generic validation does not care)
-			add(b, refcbor.Uint(refcose.LCWTClaims), refcbor.Map(
+			claims := []*refcbor.Item{
 				refcbor.Uint(1), refcbor.Tstr(genText(t, 12)),
 				refcbor.Uint(2), refcbor.Tstr(genText(t, 12)),
-				refcbor.Uint(6), refcbor.Int(int64(t.Choose(1<<30, "cwt.iat")))))
+				refcbor.Uint(6), refcbor.Int(int64(t.Choose(1<<30, "cwt.iat")))}
+			// a validity period (exp 4, nbf 5): long over, not yet begun, open,
+			// whole or fractional seconds.  Claims are the application's to
+			// judge - COSE signs them, it does not read them
+			instants := []*refcbor.Item{refcbor.Int(0), refcbor.Int(1), refcbor.Int(int64(t.Choose(1<<31, "cwt.instant"))), refcbor.Int(2_000_000_000),
+				refcbor.Int(4_200_000_000), refcbor.Int(1 << 40), refcbor.Int(-1), refcbor.Float64(1.5e9), refcbor.Float64(4.5e9)}
+			if t.Bool(1, 2, "cwt.exp") {
+				claims = append(claims, refcbor.Uint(4), instants[t.Choose(len(instants), "cwt.exp.v")])
+			}
+			if t.Bool(1, 2, "cwt.nbf") {
+				claims = append(claims, refcbor.Uint(5), instants[t.Choose(len(instants), "cwt.nbf.v")])
+			}
+			add(b, refcbor.Uint(refcose.LCWTClaims), refcbor.Map(claims...))
 		case 5:
 			x := []uint64{32, 33, 34, 35, 258, 259, 260, 8, 10, 13, 14}
 			add(b, refcbor.Uint(x[t.Choose(len(x), "hdr.reg")]), genValue(t, 2))
